@@ -13,7 +13,13 @@ RightChain(d, k) == IF d = 0 THEN TLeaf(k) ELSE TNode(TLeaf(k), RightChain(d - 1
 \* a chain that turns: depth d reached on the left, then a right chain of length e below it
 Zig(d, e) == IF d = 0 THEN RightChain(e, 1) ELSE TNode(LeftChain(d - 1, 500), RightChain(e, 1))
 
-MCTrees == UNION {Shapes(n) : n \in 1..MaxLeaves}
+Bush4(k) == TNode(TNode(TLeaf(k), TLeaf(k + 1)), TNode(TLeaf(k + 2), TLeaf(k + 3)))
+RECURSIVE LeftOver(_, _, _)
+LeftOver(d, k, bottom) == IF d = 0 THEN bottom ELSE TNode(LeftOver(d - 1, k + 1, bottom), TLeaf(k))
+RECURSIVE RightOver(_, _, _)
+RightOver(d, k, bottom) == IF d = 0 THEN bottom ELSE TNode(TLeaf(k), RightOver(d - 1, k + 1, bottom))
+MCTrees == {LeftOver(126, 10, Bush4(1)), RightOver(126, 10, Bush4(1)), RightOver(125, 10, TNode(Bush4(1), Bush4(5))), LeftOver(127, 10, Bush4(1))}
+           \cup UNION {Shapes(n) : n \in 1..MaxLeaves}
            \cup {LeftChain(d, 1) : d \in ChainDepths} \cup {RightChain(d, 1) : d \in ChainDepths}
            \cup {TNode(LeftChain(d, 1), RightChain(d, 300)) : d \in {x \in ChainDepths : x <= 128}}
 =============================================================================
